@@ -475,6 +475,22 @@ class C10:
             env["UPDATE_OS_ENVIRON"] = False
             if k in model:
                 env[k] = model[k]
+        # ---- a variable whose default is computed on first read, read (and edited in place) for the first time *after* a
+        # mapping for children was built: it is part of the environment from then on and the next mapping must carry it
+        from xonsh.environ import Env as _Env
+
+        e2 = _Env({"HOME": os.environ["HOME"], "VSTR": "x"})
+        key = rng.choice(["XDG_DATA_DIRS", "XONSH_COMPLETER_DIRS"])
+        e2.detype()
+        first = e2[key]
+        edit = rng.random() < 0.7
+        if edit:
+            first.append("/c10-probe")
+        d2 = e2.detype()
+        rec.count("first_reads_of_a_computed_default_after_detype")
+        wantv = os.pathsep.join(str(x) for x in first)
+        if d2.get(key) != wantv:
+            rec.violation("IMAGE/computed-default-read-after-a-cached-mapping-missing-from-the-next-one", dict(case, steps=list(trace) + [["first-read", key, edit]]), {"key": key, "child_would_get": d2.get(key), "expected": wantv})
         rec.case(nontrivial=case["rseed"] if mutated_then_launched else None)
 
     def run_case(self, case, rec):
